@@ -256,6 +256,7 @@ def r12_3(ctx: Ctx) -> None:
                form="; ".join(txt(v)[:80] for v in vals))
     # location adjusters: all shift by -region.start with the record length as wrap point
     sites = []
+    manual_total = 0
     for qual in ("_adjust_protocluster", "_adjust_motif", "_build_record_from_cross_origin"):
         helper = ctx.fn(HELP, qual)
         for call in calls(helper):
@@ -263,6 +264,7 @@ def r12_3(ctx: Ctx) -> None:
                 sites.append((qual, call))
         manual = [n for n in walk_local(helper) if isinstance(n, ast.BinOp) and isinstance(n.op, ast.Sub)
                   and txt(n.right) == "region.start" and txt(n.left).endswith((".start", ".end"))]
+        manual_total += len(manual)
         for node in manual:
             ctx.ob("R12.3", HELP, node, qual, f"manual shift {txt(node)}", False,
                    "a location is shifted by plain subtraction of the region start instead of the wrapping offset used by "
@@ -276,8 +278,8 @@ def r12_3(ctx: Ctx) -> None:
         ctx.ob("R12.3", HELP, call, qual, f"shift {txt(call)[-60:]}", ok,
                "locations are moved by -region.start (or +len(record)-region.start for the re-based post-origin slice) with the "
                "record length as wrap point", form=txt(call)[:120])
-    if len(sites) < 4:
-        raise AnalysisError(f"expected at least 4 wrapping location adjusters, found {len(sites)}")
+    if len(sites) + manual_total < 4:
+        raise AnalysisError(f"expected at least 4 location adjusters, found {len(sites) + manual_total}")
     caller = [c for c in calls(func) if call_name(c).startswith("_adjust_")]
     ok = all("len(record)" in txt(c) for c in caller) and len(caller) == 2
     ctx.ob("R12.3", HELP, func, "_adjust_features", "record length handed to helpers", ok,
